@@ -164,6 +164,42 @@ def case_cached(case):
     return {"v": v[:4], "nt": True, "n": n, "obs": {"orders": len(orders)}}
 
 
+def case_drivers(case):
+    """the same claim through the configuration-driven drivers: with output_levels set and a forcing that changes the
+    vertical grid from step to step (z0 follows ustar), every driver must report for every step and slice the height of
+    THAT step's grid, i.e. what the single run of that step reports"""
+    import warnings
+
+    import bldfm.interface as itf
+    from bldfm.config_parser import parse_config_dict
+
+    cfg = parse_config_dict({
+        "domain": {"nx": 6, "ny": 4, "xmax": 60.0, "ymax": 60.0, "nz": 4, "modes": [6, 4], "halo": 20.0, "output_levels": case["levels"]},
+        "towers": [{"name": "p", "lat": 0.0, "lon": 0.0, "z_m": 5.0}, {"name": "q", "lat": 0.0, "lon": 0.0, "z_m": 8.0}],
+        "met": {"ustar": [0.25, 0.45, 0.6], "mol": [-30.0, 200.0, -400.0], "wind_speed": 3.0, "wind_dir": [30.0, 120.0, 250.0]},
+        "solver": {"footprint": case["footprint"], "precision": "double"},
+    })
+    for t, xy in zip(cfg.towers, ((20.0, 15.0), (40.0, 45.0))):
+        t.x, t.y = xy
+    v = []
+    n = 0
+    with warnings.catch_warnings():
+        warnings.simplefilter("ignore")
+        ref = {t.name: [itf.run_bldfm_single(cfg, t, met_index=i) for i in range(3)] for t in cfg.towers}
+        runs = {"multitower": itf.run_bldfm_multitower(cfg)}
+        for strat in ("towers", "time", "both"):
+            runs["parallel-" + strat] = itf.run_bldfm_parallel(cfg, max_workers=2, parallel_over=strat)
+    for how, res in runs.items():
+        for t in cfg.towers:
+            for i in range(3):
+                n += 1
+                got, want = res[t.name][i], ref[t.name][i]
+                if not (np.array_equal(np.asarray(got["grid"][2]), np.asarray(want["grid"][2])) and np.array_equal(np.asarray(got["flx"]), np.asarray(want["flx"]))):
+                    v.append({"sub": "driver-heights", "sig": "driver-heights/%s" % how.split("-")[0], "msg": "%s, tower %s, step %d, levels %r: reported heights %s, the single run of that step reports %s" % (how, t.name, i, case["levels"], np.unique(np.asarray(got["grid"][2])).round(4).tolist(), np.unique(np.asarray(want["grid"][2])).round(4).tolist())})
+                    break
+    return {"v": v[:4], "nt": n, "key": core.canon(case), "n": n}
+
+
 def run(ctx):
     os.environ["VERIF_SEED"] = str(ctx.seed)
     core.warm_numba()
@@ -174,4 +210,5 @@ def run(ctx):
     )
     res = ctx.run_cases(case_levels, cases(ctx.tier), sub="levels")
     ctx.run_cases(case_cached, cache_cases(ctx.tier), sub="levels-through-cache")
+    ctx.run_cases(case_drivers, [{"levels": lv, "footprint": fp} for lv in ([1, 3], [4, 0, 2], [0]) for fp in (True, False)], sub="levels-through-drivers", chunksize=1)
     ctx.cov["unsorted_selections_cases"] = int(sum(1 for r in res if r.get("obs", {}).get("unsorted")))
